@@ -7,3 +7,19 @@ open Model.C15
 #print axioms emits_entries
 #print axioms at_most_amount
 #print axioms default_is_reverse_values
+#print axioms iter_full_spec
+#print axioms iter_range_sound
+#print axioms iter_range_full
+#print axioms iter_range_gte
+#print axioms iter_range_gt
+#print axioms iter_range_amount
+#print axioms iter_heads_amount
+#print axioms related_bounds_amount
+#print axioms Model.traverse_general
+#print axioms Model.traverse_endHash_find
+#print axioms Model.traverse_endHash
+#print axioms Model.traverse_amount
+#print axioms Model.traverse_amount_take
+#print axioms Model.traverseG_prefix
+#print axioms iter_range_gte_outside
+#print axioms iter_range_gt_outside
